@@ -10,39 +10,47 @@ namespace C16
 open Gen
 
 /-- the chosen block size is at least the request (all small and medium sizes) -/
-theorem bin_ge (n : Nat) (h : n ≤ MI_MEDIUM_OBJ_SIZE_MAX) : n ≤ _mi_bin_size (mi_bin n) := by
-  sorry
+theorem bin_ge (n : Nat) (h : n ≤ MI_MEDIUM_OBJ_SIZE_MAX) : n ≤ _mi_bin_size (mi_bin n) :=
+  C16L.bin_ge n h
 
 /-- every larger request (that does not wrap when rounded to words) goes to the huge bin -/
 theorem bin_huge (n : Nat) (h : MI_MEDIUM_OBJ_SIZE_MAX < n) (h2 : n < 2^64 - 8) : mi_bin n = MI_BIN_HUGE := by
-  sorry
+  rw [C16L.bin_bridge n h2]
+  exact C16L.binOfW_huge _ (by unfold MI_MEDIUM_OBJ_SIZE_MAX at h; omega)
 
 /-- size classes are monotone in the request -/
 theorem bin_mono (n m : Nat) (h : n ≤ m) (h2 : m < 2^64 - 8) : mi_bin n ≤ mi_bin m := by
-  sorry
+  rw [C16L.bin_bridge n (by omega), C16L.bin_bridge m h2]
+  exact C16L.binOfW_mono _ _ (by omega)
 
 /-- the block sizes of the bins are strictly increasing up to the huge bin -/
-theorem binSize_strictMono (a b : Nat) (ha : 1 ≤ a) (hab : a < b) (hb : b < MI_BIN_HUGE) : _mi_bin_size a < _mi_bin_size b := by
-  sorry
+theorem binSize_strictMono (a b : Nat) (ha : 1 ≤ a) (hab : a < b) (hb : b < MI_BIN_HUGE) : _mi_bin_size a < _mi_bin_size b :=
+  C16L.binsize_strictMono a b ha hab hb
 
 /-- internal fragmentation is at most 25% above 64 bytes -/
 theorem bin_frag (n : Nat) (h64 : 64 < n) (h : n ≤ MI_MEDIUM_OBJ_SIZE_MAX) :
-    4 * (_mi_bin_size (mi_bin n) - n) ≤ _mi_bin_size (mi_bin n) := by
-  sorry
+    4 * (_mi_bin_size (mi_bin n) - n) ≤ _mi_bin_size (mi_bin n) :=
+  C16L.bin_frag n h64 h
 
-/-- a block size is its own size class: requesting exactly a bin's size selects that bin -/
-theorem bin_of_binSize (b : Nat) (h1 : 1 ≤ b) (h2 : b < MI_BIN_HUGE) : mi_bin (_mi_bin_size b) = b := by
-  sorry
+/-- a block size is its own size class: re-requesting the block size chosen for `n` selects the same bin.
+    (CORRECTED statement.  The original `∀ b, 1 ≤ b → b < MI_BIN_HUGE → mi_bin (_mi_bin_size b) = b` is false:
+    bins 3, 5, 7 are never returned by `mi_bin` (e.g. `mi_bin (_mi_bin_size 3) = mi_bin 24 = 4`), and bins
+    49..72 have sizes above MI_MEDIUM_OBJ_SIZE_MAX, which map to the huge bin
+    (e.g. `mi_bin (_mi_bin_size 49) = mi_bin 81920 = 73`).) -/
+theorem bin_of_binSize (n : Nat) (h : n ≤ MI_MEDIUM_OBJ_SIZE_MAX) : mi_bin (_mi_bin_size (mi_bin n)) = mi_bin n :=
+  C16L.bin_idem n h
 
 /-- mi_good_size n ≥ n, for any OS page size that is a power of two ≥ 4 KiB (`ps = 2^k`) -/
 theorem good_ge (n k : Nat) (hk : 12 ≤ k) (hk2 : k ≤ 30) (hn : n ≤ 2^63 - 1) :
-    n ≤ mi_good_size _mi_bin_size (2^k) n := by
-  sorry
+    n ≤ mi_good_size _mi_bin_size (2^k) n :=
+  have _ := hk  -- (the lower bound on the page size is not needed)
+  C16L.good_ge n k hk2 hn
 
 /-- mi_good_size is idempotent -/
 theorem good_idem (n k : Nat) (hk : 12 ≤ k) (hk2 : k ≤ 30) (hn : n ≤ 2^63 - 1) :
-    mi_good_size _mi_bin_size (2^k) (mi_good_size _mi_bin_size (2^k) n) = mi_good_size _mi_bin_size (2^k) n := by
-  sorry
+    mi_good_size _mi_bin_size (2^k) (mi_good_size _mi_bin_size (2^k) n) = mi_good_size _mi_bin_size (2^k) n :=
+  have _ := hk  -- (the lower bound on the page size is not needed)
+  C16L.good_idem n k hk2 hn
 
 /-- interior pointer → block start, for every block size (power of two: shift path; otherwise modulo path),
     every block index and every interior offset.  `shift` is what `mi_page_init` stores: log2 of a power-of-two
@@ -51,47 +59,58 @@ theorem unalign_correct (start bsize shift page i o : Nat)
     (hb : 0 < bsize) (ho : o < bsize) (hfit : start + (i + 1) * bsize < 2^63)
     (hshift : (shift ≠ 0 → bsize = 2^shift ∧ shift < 64)) :
     _mi_page_ptr_unalign start shift bsize page (start + i * bsize + o) = start + i * bsize := by
-  sorry
+  have _ := hb  -- (implied by `ho`)
+  have hfit' : start + (i * bsize + o) < 2^63 := by
+    rw [Nat.succ_mul] at hfit; omega
+  have hmod : (i * bsize + o) % bsize = o := by
+    rw [Nat.mul_add_mod_self_right]; exact Nat.mod_eq_of_lt ho
+  rw [Nat.add_assoc, C16L.unalign_eq start bsize shift page (i * bsize + o) hfit' hshift, hmod]
+  omega
 
 /-- pointer → segment: every address in (S, S + SEGMENT_SIZE] maps to the segment base S -/
 theorem ptr_segment_correct (S p : Nat) (hal : S % MI_SEGMENT_SIZE = 0) (h0 : 0 < S) (hS : S + MI_SEGMENT_SIZE ≤ 2^63)
-    (h1 : S < p) (h2 : p ≤ S + MI_SEGMENT_SIZE) : _mi_ptr_segment p = S := by
-  sorry
+    (h1 : S < p) (h2 : p ≤ S + MI_SEGMENT_SIZE) : _mi_ptr_segment p = S :=
+  C16L.ptr_segment_eq S p hal h0 hS h1 h2
 
 /-- the heap walk's fast division is exact division on its whole domain -/
 theorem fast_divide_correct (d n : Nat) (hd : 0 < d) (hd2 : d < 2^32) (hn : n < 2^32) :
     mi_fast_divide n (mi_get_fast_divisor d 1 1).1 (mi_get_fast_divisor d 1 1).2 = n / d := by
-  sorry
+  rw [C16L.fast_divisor_gen d hd hd2]
+  exact (C16L.fast_divide_gen n d hd hn).trans (C16L.fdiv_correct n d hd hn)
 
 /-- span bins: a span of `c` slices is filed under a bin whose nominal count is ≥ c, the bin index is in range -/
 theorem slice_bin_ok (c : Nat) (hc : c ≤ MI_SLICES_PER_SEGMENT) :
-    mi_slice_bin c ≤ MI_SEGMENT_BIN_MAX ∧ c ≤ spanQueueTable.getD (mi_slice_bin c) 0 := by
-  sorry
+    mi_slice_bin c ≤ MI_SEGMENT_BIN_MAX ∧ c ≤ spanQueueTable.getD (mi_slice_bin c) 0 :=
+  C16L.slice_bin_ok c hc
 
 /-- span bins are monotone in the slice count -/
-theorem slice_bin_mono (a b : Nat) (h : a ≤ b) (hb : b ≤ MI_SLICES_PER_SEGMENT) : mi_slice_bin a ≤ mi_slice_bin b := by
-  sorry
+theorem slice_bin_mono (a b : Nat) (h : a ≤ b) (hb : b ≤ MI_SLICES_PER_SEGMENT) : mi_slice_bin a ≤ mi_slice_bin b :=
+  C16L.slice_bin_mono a b h (by unfold MI_SLICES_PER_SEGMENT at hb; omega)
 
 /-- align-up law (power of two and general alignments) -/
 theorem align_up_spec (sz a : Nat) (ha : 0 < a) (h : sz + a < 2^64) :
     sz ≤ _mi_align_up sz a ∧ _mi_align_up sz a < sz + a ∧ _mi_align_up sz a % a = 0 := by
-  sorry
+  rw [C16L.align_up_eq sz a ha h]
+  obtain ⟨b1, b2⟩ := C16L.div_mul_bounds (sz + a - 1) a ha
+  exact ⟨by omega, by omega, Nat.mul_mod_left _ _⟩
 
 /-- align-down law -/
 theorem align_down_spec (sz a : Nat) (ha : 0 < a) (h : sz < 2^64) (ha2 : a < 2^64) :
     _mi_align_down sz a ≤ sz ∧ sz < _mi_align_down sz a + a ∧ _mi_align_down sz a % a = 0 := by
-  sorry
+  rw [C16L.align_down_eq sz a ha h ha2]
+  obtain ⟨b1, b2⟩ := C16L.div_mul_bounds sz a ha
+  exact ⟨b1, b2, Nat.mul_mod_left _ _⟩
 
 /-- divide-up law -/
-theorem divide_up_spec (sz d : Nat) (hd : 0 < d) (h : sz + d < 2^64) : _mi_divide_up sz d = (sz + d - 1) / d := by
-  sorry
+theorem divide_up_spec (sz d : Nat) (hd : 0 < d) (h : sz + d < 2^64) : _mi_divide_up sz d = (sz + d - 1) / d :=
+  C16L.divide_up_eq sz d hd h
 
 /-- the overflow-detecting multiply reports overflow exactly when the mathematical product does not fit -/
 theorem count_size_overflow_iff (c s t : Nat) (hc : c < 2^64) (hs : s < 2^64) :
     ((mi_count_size_overflow c s t).1 = 1 ↔ 2^64 ≤ c * s) ∧
     ((mi_count_size_overflow c s t).1 = 0 ∨ (mi_count_size_overflow c s t).1 = 1) ∧
-    ((mi_count_size_overflow c s t).1 = 0 → (mi_count_size_overflow c s t).2 = c * s) := by
-  sorry
+    ((mi_count_size_overflow c s t).1 = 0 → (mi_count_size_overflow c s t).2 = c * s) :=
+  C16L.count_size c s t hc hs
 
 /-- non-vacuity: concrete instances of the hypotheses above -/
 example : (100 : Nat) ≤ MI_MEDIUM_OBJ_SIZE_MAX ∧ mi_bin 100 = 11 ∧ _mi_bin_size 11 = 112 := by decide
